@@ -10,7 +10,7 @@ import "fmt"
 
 // VerifConsumerEncodeBatch / VerifConsumerEncodeSet: the real encoders of the stored units of a log.
 func VerifConsumerEncodeBatch(b *RecordBatch) ([]byte, error) { return encode(b, nil) }
-func VerifConsumerEncodeSet(s *MessageSet) ([]byte, error)   { return encode(s, nil) }
+func VerifConsumerEncodeSet(s *MessageSet) ([]byte, error)    { return encode(s, nil) }
 
 // VerifConsumerDecodeFetch runs the real FetchResponse decoder on a response body.
 func VerifConsumerDecodeFetch(raw []byte, version int16) (*FetchResponse, error) {
